@@ -502,12 +502,14 @@ class IH5AttributeManager(IH5InnerNode):
         # deletion marker at `key` (if set) is overwritten automatically here
         # so no need to worry about removing it before assigning `val`
         attrs = self._files[-1][self._gpath].attrs
-        was_deleted = key in attrs and _is_del_mark(attrs[key])
+        # h5py removes an existing attribute before it writes the new value, so keep
+        # what is there (a value or a deletion marker) in case that writing fails
+        old_val = typed_attr_value(attrs, key) if key in attrs else None
         try:
             attrs[key] = val
         except Exception:
-            if was_deleted and key not in attrs:
-                attrs[key] = DEL_VALUE  # h5py removed the marker before it failed
+            if old_val is not None and key not in attrs:
+                attrs[key] = old_val
             raise
 
     def __delitem__(self, key: str):
